@@ -90,9 +90,10 @@ def build_harness():
     if stamp_ok('harness', dig) and os.path.exists(exe):
         return
     rc, out = sh([sys.executable, os.path.join(VERIF, 'bin/slice_flow.py'), REPO, BUILD])
-    if rc != 0: raise BuildError('cannot slice the Darwin frame flow out of darwin-main.c', out)
+    noflow = rc != 0        # the anchors in darwin-main.c moved: only what needs the documented flow is affected (C12, flow ops)
+    open(os.path.join(BUILD, 'harness.flow'), 'w').write('0' if noflow else '1')
     inc = os.path.join(REPO, 'lltdResponder')
-    cmd = (['gcc'] + HARNESS_CFLAGS + ['-I' + inc, '-I' + os.path.join(VERIF, 'harness'), '-I' + BUILD, '-o', exe,
+    cmd = (['gcc'] + HARNESS_CFLAGS + (['-DNO_FLOW'] if noflow else []) + ['-I' + inc, '-I' + os.path.join(VERIF, 'harness'), '-I' + BUILD, '-o', exe,
             os.path.join(VERIF, 'harness/vharness.c'), os.path.join(VERIF, 'harness/flow_shim.c')]
            + [os.path.join(inc, f) for f in CORE] + [os.path.join(REPO, 'os/esp32/daemon/lltd_esp32.c')])
     rc, out = sh(cmd)
@@ -104,6 +105,11 @@ def build_harness():
         view = '0'
     open(os.path.join(BUILD, 'harness.view'), 'w').write(view)
     stamp_set('harness', dig)
+
+def harness_flow():
+    """'1' if the Darwin frame flow and tick wiring could be sliced out of darwin-main.c"""
+    try: return open(os.path.join(BUILD, 'harness.flow')).read().strip()
+    except OSError: return '1'
 
 def harness_view():
     """'1' if the harness can look into the automata objects, '0' if it had to be built without that view"""
